@@ -72,8 +72,16 @@ func (r *resvAcc) List(ctx context.Context, opts options.ListOptions) (*v3.IPRes
 // backend wrapper that records the order in which blocks are read (Go map order of ReleaseByHandle)
 type recStore struct {
 	*mb.Store
-	rec  bool
-	gets []uint32
+	rec          bool
+	gets         []uint32
+	blockUpdates int
+}
+
+func (s *recStore) Update(ctx context.Context, d *model.KVPair) (*model.KVPair, error) {
+	if _, ok := d.Key.(model.BlockKey); ok {
+		s.blockUpdates++
+	}
+	return s.Store.Update(ctx, d)
 }
 
 func (s *recStore) Get(ctx context.Context, k model.Key, rev string) (*model.KVPair, error) {
@@ -90,12 +98,12 @@ type atom struct {
 }
 
 type poolD struct {
-	base            uint32
-	nblocks, bsize  int
+	base             uint32
+	nblocks, bsize   int
 	disabled, manual bool
-	uses            []int // 0 workload 1 tunnel 2 lb
-	nodesel, nssel  []atom
-	starts          []int
+	uses             []int // 0 workload 1 tunnel 2 lb
+	nodesel, nssel   []atom
+	starts           []int
 }
 
 type cfgD struct {
@@ -230,8 +238,8 @@ func (c *cfgD) coq() string {
 	for i, l := range c.nodes {
 		ns = append(ns, fmt.Sprintf("(%d%%N, %s)", i, labCoq(l)))
 	}
-	return fmt.Sprintf("(Build_config [%s] %s %v %v %d%%nat %d%%nat [%s])", strings.Join(ps, "; "), pairs32Coq(c.resv),
-		c.strict, c.autoalloc, c.maxblocks, ipam.VerifDatastoreRetries, strings.Join(ns, "; "))
+	return fmt.Sprintf("(Build_config [%s] %s %v %v %d%%nat %d%%nat [%s] %v %v)", strings.Join(ps, "; "), pairs32Coq(c.resv),
+		c.strict, c.autoalloc, c.maxblocks, ipam.VerifDatastoreRetries, strings.Join(ns, "; "), claimBumps, capFixed)
 }
 
 func (o *opD) coq() string {
@@ -846,6 +854,7 @@ func runCase(seed uint64, boundary bool) (string, bool, string, map[string]any, 
 	}
 	sample := map[string]any{"pools": poolT, "reservations": resvT, "nodes": nodeT,
 		"ipamconfig": fmt.Sprintf("strict=%v autoAllocate=%v maxBlocksPerHost=%d", cfg.strict, cfg.autoalloc, cfg.maxblocks), "ops": opsT}
+	tags[fmt.Sprintf("variant:claimBumps=%v,capFixed=%v", claimBumps, capFixed)] = true
 	tags[fmt.Sprintf("pools:%d", len(cfg.pools))] = true
 	tags[fmt.Sprintf("strict:%v,auto:%v,cap:%v", cfg.strict, cfg.autoalloc, cfg.maxblocks != 0)] = true
 	if len(cfg.resv) > 0 {
@@ -870,6 +879,68 @@ func runCase(seed uint64, boundary bool) (string, bool, string, map[string]any, 
 	return coq + "\x00" + mk(false) + "\x00" + strconv.FormatBool(globalCap), nt, key, sample, tl
 }
 
+// ---------------------------------------------------------------- probes of the tree under test
+var claimBumps, capFixed bool
+
+func probePools(uses ...[]v3.IPPoolAllowedUse) *poolAcc {
+	pa := &poolAcc{}
+	for i, u := range uses {
+		mode := v3.Automatic
+		pa.pools = append(pa.pools, v3.IPPool{ObjectMeta: metav1.ObjectMeta{Name: fmt.Sprintf("pool%d", i)}, Spec: v3.IPPoolSpec{
+			CIDR: fmt.Sprintf("10.0.%d.0/29", i+1), BlockSize: 30, AllowedUses: u, AssignmentMode: &mode}})
+	}
+	return pa
+}
+
+func probeStore(maxblocks int) *recStore {
+	st := &recStore{Store: mb.NewStore()}
+	ctx := context.Background()
+	n := internalapi.NewNode()
+	n.Name = "n0"
+	if _, err := st.Apply(ctx, &model.KVPair{Key: model.ResourceKey{Kind: internalapi.KindNode, Name: n.Name}, Value: n}); err != nil {
+		panic(err)
+	}
+	if maxblocks != 0 {
+		if _, err := st.Apply(ctx, &model.KVPair{Key: model.IPAMConfigKey{}, Value: &model.IPAMConfig{
+			StrictAffinity: true, AutoAllocateBlocks: true, MaxBlocksPerHost: maxblocks}}); err != nil {
+			panic(err)
+		}
+	}
+	return st
+}
+
+// probeClaimBumps: with fixes/C22-claim-existing-block-bumps-revision.patch a ClaimAffinity of a block this host already
+// owns writes the block back (one block update) before confirming the affinity; the pinned code updates no block there.
+func probeClaimBumps() bool {
+	logrus.SetLevel(logrus.PanicLevel)
+	ctx := context.Background()
+	st := probeStore(0)
+	ic := ipam.NewIPAMClient(st, probePools([]v3.IPPoolAllowedUse{v3.IPPoolAllowedUseWorkload}), &resvAcc{})
+	_, cidr, _ := cnet.ParseCIDR("10.0.1.0/30")
+	cfg := ipam.AffinityConfig{AffinityType: ipam.AffinityTypeHost, Host: "n0"}
+	_, _, _ = ic.ClaimAffinity(ctx, *cidr, cfg)
+	st.blockUpdates = 0
+	_, _, _ = ic.ClaimAffinity(ctx, *cidr, cfg)
+	return st.blockUpdates > 0
+}
+
+// probeCapFix: with fixes/C20-count-all-affine-blocks.patch the per-host block limit counts every block affine to the
+// host: pools A (Workload) and B (Tunnel), MaxBlocksPerHost = 1; after a Workload address the Tunnel request must fail
+// with ErrBlockLimit.  The pinned code claims a second block.
+func probeCapFix() bool {
+	logrus.SetLevel(logrus.PanicLevel)
+	ctx := context.Background()
+	st := probeStore(1)
+	ic := ipam.NewIPAMClient(st, probePools([]v3.IPPoolAllowedUse{v3.IPPoolAllowedUseWorkload}, []v3.IPPoolAllowedUse{v3.IPPoolAllowedUseTunnel}), &resvAcc{})
+	h := "probe"
+	_, _, err := ic.AutoAssign(ctx, ipam.AutoAssignArgs{Num4: 1, HandleID: &h, Hostname: "n0", IntendedUse: v3.IPPoolAllowedUseWorkload})
+	if err != nil {
+		panic(err)
+	}
+	_, _, err = ic.AutoAssign(ctx, ipam.AutoAssignArgs{Num4: 1, HandleID: &h, Hostname: "n0", IntendedUse: v3.IPPoolAllowedUseTunnel})
+	return errors.Is(err, ipam.ErrBlockLimit)
+}
+
 type line struct {
 	Coq    string         `json:"coq"`
 	NT     bool           `json:"nt"`
@@ -882,7 +953,12 @@ func main() {
 	n := flag.Int("n", 100, "cases")
 	seed := flag.Uint64("seed", 1, "seed")
 	only := flag.Int("only", -1, "emit only the case with this index (replay)")
+	flip := flag.Bool("model-flip", false, "tell the model the opposite of what the probes found (debugging aid)")
 	flag.Parse()
+	claimBumps, capFixed = probeClaimBumps(), probeCapFix()
+	if *flip {
+		claimBumps, capFixed = !claimBumps, !capFixed
+	}
 	enc := json.NewEncoder(os.Stdout)
 	for i := 0; i < *n; i++ {
 		if *only >= 0 && i != *only {
